@@ -394,3 +394,37 @@ func XCacheCode(s string) int64 {
 	}
 	return -1
 }
+
+// ---------- what survives an HTTP/1.1 hop ----------
+
+func wireClean(s string) (string, bool) {
+	b := []byte(s)
+	changed := false
+	for i, c := range b {
+		if (c < 0x20 && c != '\t') || c == 0x7f {
+			b[i] = ' '
+			changed = true
+		}
+	}
+	t := strings.Trim(string(b), " \t")
+	return t, changed || t != s
+}
+
+// WireSafe returns the header view a recipient sees after the field lines have crossed
+// an HTTP/1.1 connection between two net/http endpoints: control characters cannot be
+// sent (the receiving parser rejects the whole message), leading and trailing blanks
+// and tabs are not part of a field value. Malformed dates that would change under this
+// are replaced by the malformed date "0".
+func WireSafe(h HView) HView {
+	out := h
+	out.CC = make([]string, len(h.CC))
+	for i, l := range h.CC {
+		out.CC[i], _ = wireClean(l)
+	}
+	if h.Exp.Kind == ExpUnparseable {
+		if _, changed := wireClean(h.Exp.Line); changed {
+			out.Exp.Line = "0"
+		}
+	}
+	return out
+}
